@@ -96,6 +96,21 @@ func checkRejectOrRender(r *evid.Run, d *DocState, concs []*tok.Conc, routes []m
 				r.Mismatch(rt.name+":"+cl+":"+d.Verdict+"/"+d.Why, fmt.Sprintf("doc=%q %s", doc, firstLine(o.Panic)), rp)
 				continue
 			}
+			// Layer M: what had been written when the call failed (no property speaks about it: drift only)
+			if cl == "err" && d.GsStatus == "err" && strings.HasPrefix(rt.name, "md-text/") {
+				want := ""
+				if rt.name == "md-text/iter" {
+					for _, row := range d.Partial {
+						want += c.Seq(row) + "\n"
+					}
+				}
+				if o.Out != want {
+					r.Count("drift_partial_output", 1)
+					if r.Get("drift_partial_output") <= 3 {
+						fmt.Printf("SPEC-DRIFT layer=doc route=%s doc=%q: written before the error: %q, the model says %q\n", rt.name, doc, o.Out, want)
+					}
+				}
+			}
 			switch d.Verdict {
 			case "reject":
 				if cl == "ok" {
